@@ -29,6 +29,8 @@ ASSUMPTIONS = [
 REQUIRED_CLASSES = {'all': ['fragmented', 'whole']}
 QUICK_VALIDATE = 6
 MAX_PATHS = {'quick': 20000, 'thorough': 200000}
+QTIMEOUT_MS = {'quick': 20000, 'thorough': 240000}
+CASE_SECONDS = {'quick': 300, 'thorough': 3600}
 
 
 def cases(tier):
